@@ -25,8 +25,29 @@ var wskelArgs = map[string]bool{"Truncate": true, "Seek": true, "afterFileCreati
 
 var wskelState = []string{"w.currentFile", "w.currentFileName", "w.currentFileSize", "w.currentWarcInfoId", "response.", "res."}
 
+type skelCfg struct {
+	calls, args map[string]bool
+	state       []string
+}
+
+var writerCfg = &skelCfg{calls: wskelCalls, args: wskelArgs, state: wskelState}
+
+// The same kind of skeleton for the record parser (unmarshaler.go Unmarshal, resolveRecordVersion): reads, peeks and
+// discards on the stream, the gzip member handling, the calls into header parser / header validation / block parser /
+// digest validation, every assignment to the outcome (record, offset, validation, err) and to the unmarshaler's own
+// state, the policy switches and every return with its operands. The model `unmarshal` (Model/Record.lean) was written
+// from it; `C05_unmarshal_skeleton` states that the skeleton extracted now is still that one.
+var unmarshalCfg = &skelCfg{
+	calls: map[string]bool{"Peek": true, "Discard": true, "ReadFull": true, "ReadBytes": true, "NewReader": true, "NewReaderSize": true, "Reset": true,
+		"Multistream": true, "Close": true, "Copy": true, "NewLimited": true, "Parse": true, "validateHeader": true, "parseBlock": true,
+		"ValidateDigest": true, "resolveRecordVersion": true, "addError": true, "GetInt64": true, "Errorf": true, "newSyntaxError": true},
+	args:  map[string]bool{"Peek": true, "Discard": true, "NewLimited": true, "Copy": true, "parseBlock": true, "validateHeader": true, "Parse": true, "ReadBytes": true, "resolveRecordVersion": true},
+	state: []string{"validation", "offset", "r", "isGzip", "err", "record", "record.", "u.", "magic", "l", "length", "content", "version"},
+}
+
 type wskel struct {
 	p   *pkgInfo
+	cfg *skelCfg
 	out []string
 }
 
@@ -46,8 +67,8 @@ func (s *wskel) calls(e ast.Expr) {
 			switch f := c.Fun.(type) {
 			case *ast.SelectorExpr:
 				s.calls(f.X)
-				if wskelCalls[f.Sel.Name] {
-					if wskelArgs[f.Sel.Name] {
+				if s.cfg.calls[f.Sel.Name] {
+					if s.cfg.args[f.Sel.Name] {
 						var as []string
 						for _, a := range c.Args {
 							as = append(as, oneLine(s.p.src(a)))
@@ -58,8 +79,16 @@ func (s *wskel) calls(e ast.Expr) {
 					}
 				}
 			case *ast.Ident:
-				if wskelCalls[f.Name] {
-					s.emit("call %s", f.Name)
+				if s.cfg.calls[f.Name] {
+					if s.cfg.args[f.Name] {
+						var as []string
+						for _, a := range c.Args {
+							as = append(as, oneLine(s.p.src(a)))
+						}
+						s.emit("call %s(%s)", f.Name, strings.Join(as, ", "))
+					} else {
+						s.emit("call %s", f.Name)
+					}
 				}
 			}
 			return false
@@ -68,8 +97,8 @@ func (s *wskel) calls(e ast.Expr) {
 	})
 }
 
-func isState(lhs string) bool {
-	for _, p := range wskelState {
+func (s *wskel) isState(lhs string) bool {
+	for _, p := range s.cfg.state {
 		if lhs == p || (strings.HasSuffix(p, ".") && strings.HasPrefix(lhs, p)) {
 			return true
 		}
@@ -93,7 +122,7 @@ func (s *wskel) stmt(st ast.Stmt) {
 		for _, l := range v.Lhs {
 			t := oneLine(s.p.src(l))
 			lhs = append(lhs, t)
-			if isState(t) {
+			if s.isState(t) {
 				state = true
 			}
 		}
@@ -173,7 +202,11 @@ func (s *wskel) stmt(st ast.Stmt) {
 			}
 		}
 	case *ast.ForStmt:
-		s.emit("for[")
+		cond := ""
+		if v.Cond != nil {
+			cond = oneLine(s.p.src(v.Cond))
+		}
+		s.emit("for %s [", cond)
 		s.stmt(v.Init)
 		s.calls(v.Cond)
 		s.block(v.Body)
@@ -185,10 +218,29 @@ func (s *wskel) stmt(st ast.Stmt) {
 		s.emit("]")
 	case *ast.SwitchStmt:
 		s.stmt(v.Init)
+		tag := ""
+		if v.Tag != nil {
+			tag = oneLine(s.p.src(v.Tag))
+		}
+		s.emit("switch %s [", tag)
 		s.block(v.Body)
+		s.emit("]")
 	case *ast.CaseClause:
+		var cs []string
+		for _, e := range v.List {
+			cs = append(cs, oneLine(s.p.src(e)))
+		}
+		if v.List == nil {
+			cs = []string{"default"}
+		}
+		s.emit("case %s [", strings.Join(cs, ", "))
 		for _, b := range v.Body {
 			s.stmt(b)
+		}
+		s.emit("]")
+	case *ast.IncDecStmt:
+		if t := oneLine(s.p.src(v.X)); s.isState(t) {
+			s.emit("set %s %s", t, v.Tok.String())
 		}
 	}
 }
@@ -214,7 +266,7 @@ func genWriterSkeleton(p *pkgInfo) string {
 		fd := p.funcDecl(fn, "singleWarcFileWriter")
 		var evs []string
 		if fd != nil {
-			s := &wskel{p: p}
+			s := &wskel{p: p, cfg: writerCfg}
 			s.block(fd.Body)
 			evs = s.out
 		} else {
@@ -226,6 +278,35 @@ func genWriterSkeleton(p *pkgInfo) string {
 		}
 		sep := ","
 		if i == len(wskelFuncs)-1 {
+			sep = ""
+		}
+		fmt.Fprintf(&sb, "  (%s, [%s])%s\n", leanStr(fn), strings.Join(q, ",\n    "), sep)
+	}
+	sb.WriteString("]\n\nend Gowarc.Gen\n")
+	return sb.String()
+}
+
+func genUnmarshalSkeleton(p *pkgInfo) string {
+	var sb strings.Builder
+	sb.WriteString("-- GENERATED by /verif/go/extract from /repo/unmarshaler.go: do not edit\nnamespace Gowarc.Gen\n\n")
+	sb.WriteString("/-- function of unmarshaler ↦ its stream operations, calls, outcome assignments, policy switches and returns in syntactic order -/\ndef unmarshalSkeleton : List (String × List String) := [\n")
+	fns := []string{"Unmarshal", "resolveRecordVersion"}
+	for i, fn := range fns {
+		fd := p.funcDecl(fn, "unmarshaler")
+		var evs []string
+		if fd != nil {
+			s := &wskel{p: p, cfg: unmarshalCfg}
+			s.block(fd.Body)
+			evs = s.out
+		} else {
+			evs = []string{"absent"}
+		}
+		q := make([]string, len(evs))
+		for j, e := range evs {
+			q[j] = leanStr(e)
+		}
+		sep := ","
+		if i == len(fns)-1 {
 			sep = ""
 		}
 		fmt.Fprintf(&sb, "  (%s, [%s])%s\n", leanStr(fn), strings.Join(q, ",\n    "), sep)
